@@ -387,6 +387,13 @@ func dispatch(op string, a []val) string {
 	case "padd":
 		p1, p2 := mkPoint(a[0].i, a[1].i), mkPoint(a[2].i, a[3].i)
 		return kP(babyjub.NewPointProjective().Add(p1.Projective(), p2.Projective()).Affine())
+	case "paffine": // X Y Z: an arbitrary projective triple through the exported struct fields
+		pp := &babyjub.PointProjective{X: ff.NewElement().SetBigInt(a[0].i), Y: ff.NewElement().SetBigInt(a[1].i), Z: ff.NewElement().SetBigInt(a[2].i)}
+		return kP(pp.Affine())
+	case "paddproj": // X1 Y1 Z1 X2 Y2 Z2
+		p1 := &babyjub.PointProjective{X: ff.NewElement().SetBigInt(a[0].i), Y: ff.NewElement().SetBigInt(a[1].i), Z: ff.NewElement().SetBigInt(a[2].i)}
+		p2 := &babyjub.PointProjective{X: ff.NewElement().SetBigInt(a[3].i), Y: ff.NewElement().SetBigInt(a[4].i), Z: ff.NewElement().SetBigInt(a[5].i)}
+		return kP(babyjub.NewPointProjective().Add(p1, p2).Affine())
 	case "mul":
 		return kP(babyjub.NewPoint().Mul(a[0].i, mkPoint(a[1].i, a[2].i)))
 	case "mulrecv": // receiver and returned value
@@ -719,7 +726,24 @@ func dispatch(op string, a []val) string {
 // switched off), gen (portable routines through the verif hooks).
 var adxMu sync.Mutex
 
-func ffOp(backend, op string, a []val) string {
+func ffOp(backend, op string, a []val) (out string) {
+	// operands that are not the destination must come back unchanged
+	type kept struct {
+		p *ff.Element
+		v ff.Element
+	}
+	var keeps []kept
+	keep := func(p *ff.Element) { keeps = append(keeps, kept{p, *p}) }
+	out = ffOpIn(backend, op, a, keep)
+	for _, k := range keeps {
+		if *k.p != k.v {
+			return out + " MUTATED:operand"
+		}
+	}
+	return out
+}
+
+func ffOpIn(backend, op string, a []val, keep func(*ff.Element)) string {
 	if backend == "noadx" {
 		adxMu.Lock()
 		old := ff.VerifSetSupportAdx(false)
@@ -743,6 +767,12 @@ func ffOp(backend, op string, a []val) string {
 		case 4:
 			yp = xp
 			zp = xp
+		}
+		if xp != zp {
+			keep(xp)
+		}
+		if yp != zp && yp != xp {
+			keep(yp)
 		}
 		switch op {
 		case "add":
@@ -773,6 +803,9 @@ func ffOp(backend, op string, a []val) string {
 		zp := &z
 		if a[0].i.Int64() == 1 {
 			zp = &x
+		}
+		if zp != &x {
+			keep(&x)
 		}
 		switch op {
 		case "neg":
@@ -855,6 +888,9 @@ func ffOp(backend, op string, a []val) string {
 		for i, v := range a[0].l {
 			in[i] = ffFromRaw(v)
 		}
+		for i := range in {
+			keep(&in[i])
+		}
 		out := ff.BatchInvert(in)
 		ss := make([]string, len(out))
 		for i := range out {
@@ -912,9 +948,11 @@ func ffOp(backend, op string, a []val) string {
 		return ffRaw(r)
 	case "tobig":
 		x := el(0)
+		keep(&x)
 		return bI(x.ToBigIntRegular(new(big.Int)))
 	case "bytes":
 		x := el(0)
+		keep(&x)
 		b := x.Bytes()
 		if string(b[:]) != string(x.Marshal()) {
 			return "MISMATCH"
@@ -922,34 +960,80 @@ func ffOp(backend, op string, a []val) string {
 		return xB(b[:])
 	case "string":
 		x := el(0)
+		keep(&x)
 		return xB([]byte(x.String()))
 	case "equal":
 		x, y := el(0), el(1)
+		keep(&x)
+		keep(&y)
 		return boolS(x.Equal(&y))
 	case "cmp":
 		x, y := el(0), el(1)
+		keep(&x)
+		keep(&y)
 		return fmt.Sprint(x.Cmp(&y))
 	case "lexlargest":
 		x := el(0)
+		keep(&x)
 		return boolS(x.LexicographicallyLargest())
 	case "iszero":
 		x := el(0)
+		keep(&x)
 		return boolS(x.IsZero())
 	case "legendre":
 		x := el(0)
+		keep(&x)
 		return fmt.Sprint(x.Legendre())
 	case "sqrt": // dst x -> "nil dst'" or "z"
 		d, x := el(0), el(1)
+		keep(&x)
 		r := d.Sqrt(&x)
 		if r == nil {
 			return "nil " + ffRaw(&d)
 		}
 		return ffRaw(r) + " " + ffRaw(&d)
+	case "bit": // raw limbs, as documented
+		x := el(0)
+		keep(&x)
+		return fmt.Sprint(x.Bit(a[1].i.Uint64()))
+	case "bitlen":
+		x := el(0)
+		keep(&x)
+		return fmt.Sprint(x.BitLen())
+	case "modulus":
+		m := ff.Modulus()
+		r := kI(m)
+		return r
+	case "one":
+		o := ff.One()
+		var z ff.Element
+		z.SetOne()
+		if o != z {
+			return "MISMATCH"
+		}
+		return ffRaw(&o)
 	}
 	return "UNKNOWN-OP"
 }
 
-func ffgOp(op string, a []val) string {
+func ffgOp(op string, a []val) (out string) {
+	// operands that are not the destination must come back unchanged
+	type kept struct {
+		p *ffg.Element
+		v ffg.Element
+	}
+	var keeps []kept
+	keep := func(p *ffg.Element) { keeps = append(keeps, kept{p, *p}) }
+	out = ffgOpIn(op, a, keep)
+	for _, k := range keeps {
+		if *k.p != k.v {
+			return out + " MUTATED:operand"
+		}
+	}
+	return out
+}
+
+func ffgOpIn(op string, a []val, keep func(*ffg.Element)) string {
 	el := func(i int) ffg.Element { return ffgFromRaw(a[i].i) }
 	switch op {
 	case "add", "sub", "mul", "div":
@@ -966,6 +1050,12 @@ func ffgOp(op string, a []val) string {
 		case 4:
 			yp = xp
 			zp = xp
+		}
+		if xp != zp {
+			keep(xp)
+		}
+		if yp != zp && yp != xp {
+			keep(yp)
 		}
 		switch op {
 		case "add":
@@ -984,6 +1074,9 @@ func ffgOp(op string, a []val) string {
 		zp := &z
 		if a[0].i.Int64() == 1 {
 			zp = &x
+		}
+		if zp != &x {
+			keep(&x)
 		}
 		switch op {
 		case "neg":
@@ -1034,6 +1127,9 @@ func ffgOp(op string, a []val) string {
 		for i, v := range a[0].l {
 			in[i] = ffgFromRaw(v)
 		}
+		for i := range in {
+			keep(&in[i])
+		}
 		out := ffg.BatchInvert(in)
 		ss := make([]string, len(out))
 		for i := range out {
@@ -1050,6 +1146,7 @@ func ffgOp(op string, a []val) string {
 		return ffgRaw(&z)
 	case "touint64":
 		x := el(0)
+		keep(&x)
 		return fmt.Sprint(x.ToUint64Regular())
 	case "setbigint":
 		z := el(0)
@@ -1063,11 +1160,42 @@ func ffgOp(op string, a []val) string {
 		var z ffg.Element
 		z.SetString(string(a[0].b))
 		return ffgRaw(&z)
+	case "setinterface":
+		var z ffg.Element
+		var arg interface{}
+		switch a[0].tok {
+		case "1": // Element
+			arg = el(1)
+		case "2": // *Element
+			e := el(1)
+			arg = &e
+		case "3":
+			arg = a[1].i.Uint64()
+		case "4":
+			arg = int(a[1].i.Int64())
+		case "5":
+			arg = string(a[1].b)
+		case "6":
+			arg = a[1].i
+		case "7":
+			arg = *a[1].i
+		case "8":
+			arg = a[1].b
+		default:
+			arg = 1.5
+		}
+		r, err := z.SetInterface(arg)
+		if err != nil {
+			return "ERR"
+		}
+		return ffgRaw(r)
 	case "tobig":
 		x := el(0)
+		keep(&x)
 		return bI(x.ToBigIntRegular(new(big.Int)))
 	case "bytes":
 		x := el(0)
+		keep(&x)
 		b := x.Bytes()
 		if string(b[:]) != string(x.Marshal()) {
 			return "MISMATCH"
@@ -1075,29 +1203,58 @@ func ffgOp(op string, a []val) string {
 		return xB(b[:])
 	case "string":
 		x := el(0)
+		keep(&x)
 		return xB([]byte(x.String()))
 	case "equal":
 		x, y := el(0), el(1)
+		keep(&x)
+		keep(&y)
 		return boolS(x.Equal(&y))
 	case "cmp":
 		x, y := el(0), el(1)
+		keep(&x)
+		keep(&y)
 		return fmt.Sprint(x.Cmp(&y))
 	case "lexlargest":
 		x := el(0)
+		keep(&x)
 		return boolS(x.LexicographicallyLargest())
 	case "iszero":
 		x := el(0)
+		keep(&x)
 		return boolS(x.IsZero())
 	case "legendre":
 		x := el(0)
+		keep(&x)
 		return fmt.Sprint(x.Legendre())
 	case "sqrt":
 		d, x := el(0), el(1)
+		keep(&x)
 		r := d.Sqrt(&x)
 		if r == nil {
 			return "nil " + ffgRaw(&d)
 		}
 		return ffgRaw(r) + " " + ffgRaw(&d)
+	case "bit": // raw limbs, as documented
+		x := el(0)
+		keep(&x)
+		return fmt.Sprint(x.Bit(a[1].i.Uint64()))
+	case "bitlen":
+		x := el(0)
+		keep(&x)
+		return fmt.Sprint(x.BitLen())
+	case "modulus":
+		m := ffg.Modulus()
+		r := kI(m)
+		return r
+	case "one":
+		o := ffg.One()
+		var z ffg.Element
+		z.SetOne()
+		if o != z {
+			return "MISMATCH"
+		}
+		return ffgRaw(&o)
 	}
 	return "UNKNOWN-OP"
 }
